@@ -340,7 +340,7 @@ func runC20(w *core.W) {
 		}
 		return mvp(mvInt(int64(r.Intn(50))))
 	}
-	for i, n := 0, w.Pick(15000, 300000); i < n; i++ {
+	for i, n := 0, w.Pick(45000, 900000); i < n; i++ {
 		h := &HistCase{}
 		for j, m := 0, 2+r.Intn(39); j < m; j++ {
 			switch r.Intn(10) {
